@@ -108,24 +108,15 @@ Theorem C16_setdesktopsize_refusal_sent : forall st hookres c,
              cNewFBPending c2 = false /\ cReqChange c2 = 0 /\ cLastErr c2 = 0.
 Proof. exact setdesktop_refusal_sent. Qed.
 
-(* scaled screens (only their size bookkeeping is in the model): rfbNewFramebuffer leaves the
-   scaledScreenNext chain and every client's scaledScreen alone ... *)
-Theorem C16_newfb_keeps_scaled : forall st w h bpp seed,
-  xChain (sExt (newfb_state st w h bpp seed)) = xChain (sExt st) /\
-  map cScaled (sClients (newfb_state st w h bpp seed)) = map cScaled (sClients st).
-Proof. exact newfb_keeps_scaled. Qed.
-
-(* ... FULL STATEMENT (refuted, F12): after rfbNewFramebuffer a client that asked for scale n is told
-   the size (W'/n, H'/n) of the new framebuffer.  Witness f12_ops: 12x8 screen, SetScale 2, new
-   framebuffer 24x16: the client is told 6x4 (the stale scaled copy of the old framebuffer, still the
-   only entry of the chain) instead of 12x8.  Replayed on the library by corpus/C16/f12_model.script. *)
-Theorem C16_scaled_refuted :
+(* scaled screens (only their size bookkeeping is in the model): since fix_C16_2 rfbNewFramebuffer rebuilds
+   the scaledScreenNext chain for the new framebuffer; the former F12 witness now tells the client 12x8 *)
+Theorem C16_scaled_follows_newfb :
   exists st c c', run (init_state 12 8 4) f12_ops = Some st /\ Inv st /\
     nth_error (sClients st) 0 = Some c /\ sW st = 24 /\ sH st = 16 /\
-    cScaled c = Some (6, 4) /\ xChain (sExt st) = [(6, 4)] /\
-    send_client st c = Some (c', Some (1, [WNewFB 6 4])) /\
-    (6, 4) <> (Z.quot (sW st) 2, Z.quot (sH st) 2).
-Proof. exact scaled_stale_after_newfb. Qed.
+    cScaled c = Some (12, 8) /\ xChain (sExt st) = [(12, 8)] /\
+    send_client st c = Some (c', Some (1, [WNewFB 12 8])) /\
+    (12, 8) = (Z.quot (sW st) 2, Z.quot (sH st) 2).
+Proof. exact scaled_follows_newfb. Qed.
 
 (* ---------------------------------------------------------------- non-vacuity *)
 Definition nv16_ops : list op :=
